@@ -6,7 +6,7 @@ From Coq Require Import String.
 From AS Require Import Base Effects.
 From AS.Spec Require Import Terminal.
 From AS.Model Require Import Sgr Table Render Scrub.
-From AS.Proofs Require Import GenConsts GenCodeTable SgrProofs ScrubProofs FlagsProofs.
+From AS.Proofs Require Import GenConsts GenCodeTable SgrProofs ScrubProofs FlagsProofs GenFns.
 Local Open Scope list_scope.
 Local Open Scope N_scope.
 
@@ -14,6 +14,12 @@ Local Open Scope N_scope.
 Theorem C15_valid : forall t, valid t = true <-> forall c, In c t -> ~ (64 <= c <= 126).
 Proof. exact valid_spec. Qed.
 Print Assumptions C15_valid.
+
+(* the model's `valid` IS the code's AnsiSetting.valid: the loop is re-translated from the Python source on
+   every run (Gen/Fns.v, over code points as integers) and shown equal *)
+Theorem C15_valid_is_code : forall t : str, valid t = AS.Gen.Fns.gen_valid (map Z.of_N t).
+Proof. exact valid_is_code. Qed.
+Print Assumptions C15_valid_is_code.
 
 (* parsable: exactly when the text is in the decimal grammar [0-9]+(;[0-9]+)* and the parameters a
    terminal reads from it (params_of, from the specification) are one complete known group other than
